@@ -53,7 +53,8 @@ def sel_test(rng, dirs, files):
 def gen_expr(rng, dirs, files):
     t, tk = sel_test(rng, dirs, files)
     shape = rng.choice(["T-prune-o-print", "(T-prune),print", "print,T-prune", "!T-o-prune", "two-prunes", "prune-only",
-                        "T-prune-o-printf", "nested", "T-prune-failing-fprint", "T-prune-o-failing-execdir-plus"])
+                        "T-prune-o-printf", "nested", "T-prune-failing-fprint", "T-prune-o-failing-execdir-plus",
+                        "not(T-prune)", "(T-prune-o-true)-false-test", "T-prune,false-test-print"])
     if shape == "T-prune-o-print":
         e = t + ["-prune", "-o", "-print"]
     elif shape == "(T-prune),print":
@@ -67,6 +68,13 @@ def gen_expr(rng, dirs, files):
         e = t + ["-prune", "-o"] + t2 + ["-prune", "-o", "-print"]
     elif shape == "prune-only":
         e = t + ["-prune"]
+    # -prune marks the directory as a side effect of being evaluated - whether or not the whole expression ends up true for it
+    elif shape == "not(T-prune)":
+        e = ["!", "("] + t + ["-prune", ")"]
+    elif shape == "(T-prune-o-true)-false-test":
+        e = ["("] + t + ["-prune", "-o", "-true", ")", rng.choice(["-type", "-xtype"]), "f"]
+    elif shape == "T-prune,false-test-print":
+        e = t + ["-prune", ",", "-type", "f", "-print"]
     elif shape == "T-prune-failing-fprint":
         # the entry -prune fires on also records a failure (output that cannot be written): still exactly that subtree is cut
         e = t + ["-prune", "-fprint", "/dev/full", "-o", "-print"]
